@@ -6,6 +6,7 @@ import ast
 from ..astutil import dotted, norm, strip_docstring, walk_body
 from ..digest import Lit, eval_str
 from ..dtree import bool_function
+from ..finite import k_eq, k_is, k_none
 from ..report import Checker
 from ..srcmodel import Func, Unsupported
 from ..worklist import Model
@@ -97,20 +98,19 @@ def r_legacy_step(ck: Checker) -> None:
     last = body[-1]
     if not isinstance(last, ast.If):
         raise Unsupported("legacy _match_node_xpath does not end with the step test", f.node)
-    defs = {norm(st.targets[0]): norm(st.value) for st in body if isinstance(st, ast.Assign) and isinstance(st.targets[0], ast.Name)}
+    np_, ep = f.node.args.args[0].arg, f.node.args.args[1].arg
+    el = f"{ep}[0]"
     what = "legacy step test: instance of the class, field constraint (if given) equals the node's parent field name, index constraint (if given) equals its parent index"
     bad = []
-    if defs.get("c_parent_field") != "node.parent_field.name if node.parent_field else None":
-        bad.append(f"c_parent_field = {defs.get('c_parent_field')}")
-    if defs.get("c_index") != "node.parent_index":
-        bad.append(f"c_index = {defs.get('c_index')}")
+    pf_actual = f"{np_}.parent_field.name if {np_}.parent_field else None"
     rows = bool_function([ast.Return(value=last.test)])
-    k = {"inst": "isinstance(node, element.ast_class)", "pfn": "is(None,element.parent_field)", "pfe": "eq(c_parent_field,element.parent_field)",
-         "pin": "is(None,element.parent_index)", "pie": "eq(c_index,element.parent_index)"}
+    k = {"inst": f"isinstance({np_}, {el}.ast_class)", "pfn": k_none(f"{el}.parent_field"), "pfe": k_eq(f"{el}.parent_field", pf_actual),
+         "pin": k_none(f"{el}.parent_index"), "pie": k_eq(f"{el}.parent_index", f"{np_}.parent_index")}
     import itertools
+    unrec = False
     for a, v, lf in rows:
         if set(a) - set(k.values()):
-            bad.append(f"decides on {sorted(set(a) - set(k.values()))}")
+            unrec = True
             continue
         free = [x for x in k.values() if x not in a]
         vals = set()
@@ -120,7 +120,9 @@ def r_legacy_step(ck: Checker) -> None:
             vals.add(bool(full[k["inst"]] and (full[k["pfn"]] or full[k["pfe"]]) and (full[k["pin"]] or full[k["pie"]])))
         if vals != {bool(v)}:
             bad.append(f"{a}: {v}, expected {sorted(vals)}")
-    ok_up = len(last.body) == 1 and isinstance(last.body[0], ast.Return) and norm(last.body[0].value) == "_match_node_xpath(node.parent, elements[1:])" \
+    if unrec and not bad:
+        raise Unsupported("legacy step test decides on unrecognised atoms", last)
+    ok_up = len(last.body) == 1 and isinstance(last.body[0], ast.Return) and norm(last.body[0].value) == f"_match_node_xpath({np_}.parent, {ep}[1:])" \
         and len(last.orelse) == 1 and norm(last.orelse[0]) == "return False"
     if not ok_up:
         bad.append("a matching step does not continue with the parent and the remaining elements / a mismatch does not return False")
@@ -129,7 +131,7 @@ def r_legacy_step(ck: Checker) -> None:
 
 def r_legacy_presence(ck: Checker) -> None:
     """Presence of a child value is an identity test against None in the legacy enumeration helpers."""
-    from ..finite import discover_atoms
+    from ..finite import k_eq, k_is, k_none, discover_atoms
 
     n = 0
     for q, var in (("_ensure_iterable", "value"), ("_is_field_child", "o"), ("get_child_nodes_with_field", "objects")):
@@ -152,13 +154,13 @@ def r_legacy_presence(ck: Checker) -> None:
     bad = []
     for lf in leaves:
         a = lf.assign
-        if a.get("is(None,value)") is True:
+        if a.get(k_none("value")) is True:
             if lf.val() != "[]":
                 bad.append(f"None yields {lf.val()}")
         elif a.get("isinstance(value, (list, tuple))") is True:
             if lf.val() != "value":
                 bad.append(f"a sequence yields {lf.val()}")
-        elif a.get("is(None,value)") is False and a.get("isinstance(value, (list, tuple))") is False:
+        elif a.get(k_none("value")) is False and a.get("isinstance(value, (list, tuple))") is False:
             if lf.val() != "[value]":
                 bad.append(f"a single child yields {lf.val()}")
         else:
@@ -174,13 +176,13 @@ def r_legacy_match_head(ck: Checker) -> None:
     body = strip_docstring(f.node.body)
     dom = lambda k: (0, 1, 2) if k.startswith("len(") else (True, False)  # noqa: E731
     rows = bool_function(body[:1], domain=dom)
-    k_none = "is(None,node)"
+    k_node_none = k_none("node")
     k_len = "len(elements)"
     k_any = "isinstance(elements[0], ASTXpathAnywhereElement)"
     bad = []
     seen = False
     for a, v, lf in rows:
-        if a.get(k_none) is not True:
+        if a.get(k_node_none) is not True:
             continue
         seen = True
         if v is None or isinstance(v, str):
